@@ -53,6 +53,8 @@ fn layout_family(fam: u64, n: usize, rng: &mut Rng, max_files: usize) -> Layout 
         xor_key: None,
         magic_mode: 0,
         xor_symlink: false,
+        link_chain: false,
+        side_xor: None,
         extra_files: vec![],
     }
 }
